@@ -76,6 +76,18 @@ def tok16_classify(line, impl, mobs, extra):
     return info
 
 
+def chain_classify(line, impl, mobs, extra):
+    t = line.split()
+    info = {"tags": ["chain-len=" + t[2], "impl=" + impl.split()[0]], "nontrivial": True}
+    if impl.split()[0] == "panic":
+        info["prop_fail"] = "panic-on-a-long-sentence-within-32-bit-costs"
+        info["why"] = f"tokenizing {t[2]} copies of one word (word cost {t[3]}, connection cost {t[4]}; accumulated cost within 32 bits) panicked"
+    elif impl != mobs:
+        info["prop_fail"] = "accumulated-cost-differs-on-a-chain"
+        info["why"] = "on a sentence with exactly one segmentation the tokens / their total_cost are not the accumulated cost of that segmentation"
+    return info
+
+
 def c02_streams(tier, seed):
     q = tier == "quick"
     return [(["tok", "c01", str(seed), "600" if q else "20000"], tok_classifier("C02", lattice_paths_ge2)),
@@ -83,7 +95,9 @@ def c02_streams(tier, seed):
             # than 2^15 and connection costs leave the i16 range
             (["tok", "c02x", str(seed + 3), "500" if q else "10000"], tok_classifier("C02", lattice_paths_ge2)),
             # boundaries with 65536 / 65537 nodes: the u16 back pointer (finding F15); 18 s of model time per case
-            (["tok", "u16", str(seed), "2" if q else "5"], tok16_classify)]
+            (["tok", "u16", str(seed), "2" if q else "5"], tok16_classify),
+            # one word, one segmentation, accumulated costs up to just below 2^31 ("costs within 32-bit range")
+            (["tokchain", str(seed), "2" if q else "4"], chain_classify)]
 
 
 def tok2_classifier(pkey, nontrivial_rule, dict_panic_is_failure=True, astral_clause=False):
